@@ -45,6 +45,8 @@ def entry_points(t):
         raise AssertionError('observing the object (is_valid, dumps, to_dict) changes what it reports next')
     b = list(debcon.get_paragraphs_data(t))
     d = debcon.get_paragraph_data(t)
+    d = (d, debcon.get_paragraph_data(t, remove_pgp_signature=True), debcon.get_paragraph_data(t, remove_pgp_signature=False),
+         debcon.Debian822(t).to_dict() if t.strip() else None)
     e = _d822.groups_t(deb822.get_paragraphs_as_field_groups(t))
     return repr((a, per, b, d, e))
 
@@ -88,6 +90,13 @@ def run(ctx):
             for first in ('John Doe <john@example.org>', '', '2019 x', '*'):
                 for cont in (' Jane Roe <jane@example.org>', '  https://example.org/contact', ' .', '\tx'):
                     texts.append((lead + '\n' if lead else '') + '%s: %s\n\n%s\nSource: s\n\nFiles: *\nCopyright: 2020 J\nLicense: MIT\n' % (name, first, cont))
+    # envelope fragments: a signature block with nothing signed before it, a BEGIN line alone, armor inside a value
+    sigb = '-----BEGIN PGP SIGNATURE-----\nVersion: GnuPG v1\n\niQEzBAEBCgAdFiEE\n=abcd\n-----END PGP SIGNATURE-----'
+    texts += [sigb, sigb + '\n', '-----BEGIN PGP SIGNED MESSAGE-----\n' + sigb, '-----BEGIN PGP SIGNED MESSAGE-----\nHash: SHA1\n\n' + sigb + '\n',
+              'a: b\n' + sigb, '-----BEGIN PGP SIGNED MESSAGE-----', '-----BEGIN PGP SIGNED MESSAGE-----\n\nFiles: *\n' + sigb, sigb.replace('\n', '\r\n')]
+    # one-line texts that name something that exists (a directory, a file), absolute or relative to the working directory
+    import os
+    texts += ['.', '..', '/', 'tests', 'debian', 'src', 'harness', os.getcwd(), os.path.abspath(__file__), '/tmp', '/etc/hostname', 'setup.sh', 'README.md', 'coq']
     fails = ctx.prop('prop:total', texts, p_total)
     # texts of thousands of paragraphs, well-formed and not (value-less licenses followed by free text, junk, duplicates)
     bigs = []
